@@ -98,12 +98,29 @@ def _replay_group(args):
                 except Exception as e:  # noqa: BLE001
                     out["mism"].append({"clause": "encode-raises", "T": T, "input": v,
                                         "expected": wire_exp, "actual": ["exc", type(e).__name__, str(e)[:200]]})
+                    if not kw and back_exp[0] == "ok" and '"bag"' not in _json.dumps(wire_exp):
+                        jdoc = listify(wire_exp)
+                        dres = norm_err(subj.decode(jdoc)[0])
+                        if dres[0] != "ok":
+                            out["mism"].append({"clause": "decode-rejects", "T": T, "input": jdoc, "expected": back_exp, "actual": dres})
+                        elif not terms_equal(dres[1], back_exp[1]):
+                            out["mism"].append({"clause": "decode", "T": T, "input": jdoc, "expected": back_exp, "actual": dres})
                     continue
                 from harness.terms import abstract_value
                 w_act = abstract_value(w_py, subj.reg)
                 if not wire_match(canon(wire_exp), w_act):
                     out["mism"].append({"clause": "wire", "T": T, "input": v, "expected": wire_exp, "actual": w_act,
                                         "call": rec[5] if len(rec) > 5 else []})
+                    # the real serializer did not produce the documented form: the deserializer is then judged on the DOCUMENTED
+                    # wire form itself (otherwise a packer and an unpacker that are wrong in the same way hide each other)
+                    if not kw and back_exp[0] == "ok" and '"bag"' not in _json.dumps(wire_exp):
+                        jdoc = listify(wire_exp)
+                        dres, _unch = subj.decode(jdoc)
+                        dres = norm_err(dres)
+                        if dres[0] != "ok":
+                            out["mism"].append({"clause": "decode-rejects", "T": T, "input": jdoc, "expected": back_exp, "actual": dres})
+                        elif not terms_equal(dres[1], back_exp[1]):
+                            out["mism"].append({"clause": "decode", "T": T, "input": jdoc, "expected": back_exp, "actual": dres})
                 if not has_any:
                     try:
                         _json.dumps(w_py)
